@@ -361,6 +361,136 @@ def run_corrupt(pid, tier, t0):
     log("[%s] %s: %d damaged files loaded (%s), trace %s by TLC, %.0fs" % (pid, tier, len(events), outs, "accepted" if accepted and not faults else "REJECTED", time.time() - t0))
     return 1 if nviol else 0
 
+# ------------------------------------------------------------------ C17: capacity limits
+def content_of(post):
+    """Python mirror of C3DFormat.Content (what a save/load may not change): names upper-cased, placeholder groups and
+    POINT:DATA_START dropped, sub-frames without channels dropped, derived header fields."""
+    up = lambda a: [x - 32 if 97 <= x <= 122 else x for x in a]
+    h = post["hdr"]
+    hdr = {k: h[k] for k in ("npts", "meas", "first", "last", "rate", "gap", "nev", "evt", "evd", "evl", "nframes", "nanalogs")}
+    hdr["perframe"] = h["perframe"] if h["nanalogs"] else 0
+    grp = []
+    for g in post["grp"]:
+        if not g["n"] and not g["p"]: continue
+        ps = [dict(p, n=up(p["n"])) for p in g["p"] if not (up(g["n"]) == vlib.codes("POINT") and up(p["n"]) == vlib.codes("DATA_START"))]
+        grp.append({"n": up(g["n"]), "d": g["d"], "l": g["l"], "p": ps})
+    frm = [{"p": f["p"], "a": [] if all(len(s) == 0 for s in f["a"]) else f["a"]} for f in post["frm"]]
+    return {"hdr": hdr, "grp": grp, "frm": frm}
+
+def limit_cases(tier):
+    """(components, build ops) for every limit at L-1, L, L+1 and far beyond, alone and in pairs."""
+    cases = []
+    def add(comps, ops): cases.append(([{"limit": n, "v": v} for n, v in comps], ops))
+    base = lambda extra: build_ops(1, 1, 1, 1, extra)
+    for v in (254, 255, 256, 300): add([("param_desc", v)], base([_userparam("G", "P", 2, [1, 2], desc="d" * v)]))
+    for v in (126, 127, 128, 200): add([("param_name", v)], base([_userparam("G", "N" * v, 2, [1, 2])]))
+    for v in (126, 127, 128, 200): add([("group_name", v)], base([_userparam("G" * v, "P", 2, [1, 2])]))
+    for v in (254, 255, 256, 300): add([("dim_entry", v)], base([_userparam("G", "P", 2, list(range(v)))]))
+    for v in (254, 255, 256): add([("str_count", v)], base([_userparam("G", "S", -1, [vlib.codes("s%d" % i) for i in range(v)])]))
+    for v in (6, 7, 8): add([("ndims", v)], base([_userparam("G", "P", 4, [[0, 0, 128, 63]], dim=[1] * v)]))
+    for v in (254, 255, 256): add([("points", v)], build_ops(v, 0, 0, 1))
+    for v in (254, 255, 256): add([("channels", v)], build_ops(0, v, 1, 1))
+    for v in (32767, 32768, 40000): add([("int_max", v)], base([_userparam("G", "P", 2, [1, v])]))
+    for v in (32767, 32768, 32769): add([("int_min", v)], base([_userparam("G", "P", 2, [-v, 5])]))
+    for v, n in ((65290, 64), (66310, 65)):        # one float parameter: 10 + 4 * 255 * n bytes of record
+        add([("record_bytes", 10 + 4 * 255 * n)], base([_userparam("G", "F", 4, [[0, 0, 128, 63]] * (255 * n), dim=(255, n))]))
+    def blocks(nb):     # parameter section of exactly nb blocks: string parameters of 255-character cells
+        ops = []; base_sz = None
+        return ops
+    # parameter blocks: fill with string parameters (dims <<255, k>>), section size computed like C3DFormat.SectionSize
+    def section_with(nblocks):
+        probe_ops = base([])
+        return probe_ops
+    frames_vals = (32766, 32767, 32768) if tier != "quick" else (32767, 32768)
+    for v in frames_vals: add([("frames", v)], build_ops(1, 0, 0, v))
+    # pairs
+    add([("param_desc", 255), ("param_name", 127)], base([_userparam("G", "N" * 127, 2, [1], desc="d" * 255)]))
+    add([("param_desc", 256), ("param_name", 127)], base([_userparam("G", "N" * 127, 2, [1], desc="d" * 256)]))
+    add([("param_name", 127), ("dim_entry", 255)], base([_userparam("G", "N" * 127, 2, list(range(255)))]))
+    add([("param_name", 128), ("dim_entry", 255)], base([_userparam("G", "N" * 128, 2, list(range(255)))]))
+    add([("points", 255), ("channels", 255)], build_ops(255, 255, 1, 1))
+    add([("points", 255), ("channels", 256)], build_ops(255, 256, 1, 1))
+    add([("int_max", 32767), ("int_min", 32768), ("param_desc", 255)], base([_userparam("G", "P", 2, [32767, -32768], desc="d" * 255)]))
+    return cases
+
+def params_blocks_case(ez, nblocks):
+    """Object whose parameter section takes exactly nblocks blocks, by adding 255-wide string parameters."""
+    ops = build_ops(1, 1, 1, 1)
+    evs, _ = vlib.run_ops(ez, [dict(o, post=0) for o in ops] + [{"op": "Save", "path": "b.c3d", "bytes": 1, "post": 0}])
+    b = evs[-1]["bytes"]; used = None
+    # bytes used by the section body = position of the terminator - 512
+    dstart = b[16] + 256 * b[17]; end = 512 * (dstart - 1)
+    pos = end - 1
+    while pos > 512 and b[pos] == 0: pos -= 1
+    body = pos + 1 - 512
+    target = 512 * nblocks - 20          # land safely inside block number nblocks
+    extra = []
+    need = target - body - (5 + 3)       # new group record "BLK"
+    k = 0
+    while need > 0:
+        k += 1
+        cells = min(250, max(1, (need - 16) // 255))
+        width = 255 if cells >= 1 and need > 300 else max(1, need - 16)
+        if need <= 300: cells, width = 1, max(1, need - 14)
+        extra.append(_userparam("BLK", "T%03d" % k, -1, [vlib.codes("y" * width)] * cells))
+        need -= 7 + 4 + 2 + cells * width
+    return build_ops(1, 1, 1, 1, extra)
+
+def run_limits(pid, tier, t0):
+    ez = report_replay.ez = vlib.build("plain")
+    cases = limit_cases(tier)
+    for nb in (254, 255, 256):
+        cases.append(([{"limit": "param_blocks", "v": nb}], params_blocks_case(ez, nb)))
+    rc, out = vlib.run_tlc("EzLimits.tla", "EzLimits.cfg", timeout=300)
+    msum = vlib.tlc_summary(out)
+    if vlib.tlc_errors(out) or msum is None: raise Infra("EzLimits model check failed: %s" % out[-1500:])
+    events = []
+    for comps, ops in cases:
+        script = [{"op": "Reset"}] + [dict(o, post=0) for o in ops] + [{"op": "Get", "q": "nbFrames", "o": 1}, {"op": "Save", "path": "lim.c3d", "o": 1, "bytes": 1}, {"op": "Load", "o": 2, "path": "lim.c3d"}]
+        evs, _ = vlib.run_ops(ez, script, timeout=1200)
+        built = all(e["out"] == "ok" for e in evs[1:-3])
+        sv, ld = evs[-2], evs[-1]
+        save = "ok" if sv["out"] == "ok" else "refused"
+        load = "na" if save != "ok" else ("ok" if ld["out"] == "ok" else "refused")
+        same = 0
+        if save == "ok" and load == "ok":
+            same = 1 if content_of(sv["post"]) == content_of(ld["post"]) else 0
+        # for param_blocks the real block count is read from the saved file
+        if comps[0]["limit"] == "param_blocks" and save == "ok":
+            b = sv["bytes"]; comps = [{"limit": "param_blocks", "v": b[514]}]
+        events.append({"e": "Limit", "comps": comps, "save": save, "load": load, "same": same, "built": 1 if built else 0,
+                       "save_class": sv["out"], "load_class": ld["out"] if save == "ok" else "na"})
+    work = vlib.scratch("c17"); tpath = os.path.join(work, "limits.ndjson")
+    open(tpath, "w").write("\n".join(json.dumps({k: e[k] for k in ("e", "comps", "save", "load", "same")}) for e in events) + "\n")
+    accepted, at, summ, tout = vlib.validate_trace("EzLimitsTrace.tla", "EzLimitsTrace.cfg", tpath)
+    nviol = 0
+    if not accepted:
+        accepted2, at2, _, _ = vlib.validate_trace("EzLimitsTrace.tla", "EzLimitsTrace.cfg", tpath)
+        if not accepted2:
+            # every event is an independent step from the same rule: validate them one by one to report all rejected ones
+            for i, e in enumerate(events):
+                one = os.path.join(work, "one.ndjson")
+                open(one, "w").write(json.dumps({k: e[k] for k in ("e", "comps", "save", "load", "same")}) + "\n")
+                ok1, _, _, _ = vlib.validate_trace("EzLimitsTrace.tla", "EzLimitsTrace.cfg", one)
+                if ok1: continue
+                key = "+".join("%s=%s" % (c_["limit"], c_["v"]) for c_ in e["comps"])
+                p = vlib.save_replay(pid, key, {"property": pid, "kind": "limit", "event": e, "ops": cases[i][1] if len(json.dumps(cases[i][1])) < 2000000 else "too large: see limit_cases()"})
+                log("VIOLATION property=%s replay=%s" % (pid, p))
+                log("  content at %s: save %s (%s), load %s (%s), same content %s: not an EzLimits.Allowed step" % (key, e["save"], e["save_class"], e["load"], e["load_class"], e["same"]))
+                nviol += 1
+    beyond = [e for e in events if e["save"] != "ok"]
+    cov = {"evaluations": len(events), "distinct_nontrivial": len({json.dumps(e["comps"]) for e in events}),
+           "rule": "one evaluation = build content through the public API with one or several sizes at L-1 / L / L+1 / far beyond a capacity limit, save, load into a second object "
+                   "and compare the content (names upper-cased); every case is distinct by its (limit, value) components; each event is validated by TLC against EzLimitsTrace.tla",
+           "samples": events[:2] + beyond[:2], "refused_saves": len(beyond), "trace_events_validated": len(events), "trace_accepted": bool(accepted),
+           "model_states": msum["distinct"], "limits": sorted({c_["limit"] for e in events for c_ in e["comps"]})}
+    cov["known_findings_observed"] = known_findings(pid, ez)
+    vlib.write_evidence(pid, tier, "exploration", cov, time.time() - t0, nviol,
+                        ["content equality is computed by a Python mirror of C3DFormat.Content; the decision rule (Within / Allowed) is evaluated by TLC",
+                         "group descriptions and the first frame number cannot be set through the public API and are exercised through files (C02/C04) only"])
+    log("[%s] %s: %d boundary cases (%d refused saves), trace %s by TLC, %.0fs" % (pid, tier, len(events), len(beyond), "accepted" if accepted else "REJECTED", time.time() - t0))
+    return 1 if nviol else 0
+
 SAN_ENV = {"ASAN_OPTIONS": "detect_leaks=0:alloc_dealloc_mismatch=1:abort_on_error=1:detect_stack_use_after_return=0",
            "UBSAN_OPTIONS": "print_stacktrace=1:halt_on_error=1"}
 def run_memsafe(pid, tier, t0):
@@ -413,6 +543,7 @@ def run_format(pid, tier, t0):
         "rates in generated files come from the exact-rate table; the two multi-word reserved header fields are zero"])
 
 CHECKS = {
+    "C17": run_limits,
     "C16": run_corrupt,
     "C02": run_format, "C12": run_format,
     "C15": run_faults,
